@@ -68,20 +68,35 @@ struct Tok {
 	int H, M, S;
 };
 bool sepch(char c) { return c == ' ' || c == ',' || c == ';' || c == '(' || c == ')' || c == '\t'; }
+/* what may stand directly in front of a token / directly behind it without becoming part of a date or time:
+ * behind, the characters that could continue one (. : + T) are fine as long as no digit follows */
+bool prech(char c) { return sepch(c) || c == 'x' || c == '=' || c == '[' || c == '"'; }
+bool postch(const std::string &c, size_t i)
+{
+	if (i >= c.size())
+		return true;
+	char ch = c[i];
+	if (sepch(ch) || ch == 'x' || ch == ']' || ch == '"' || ch == '!')
+		return true;
+	if (ch == '.' || ch == ':' || ch == '+' || ch == 'T')
+		return i + 1 >= c.size() || !isdig(c[i + 1]);
+	return false;
+}
 bool scan_tokens(const std::string &c, std::vector<Tok> &toks)
 {
 	toks.clear();
 	size_t i = 0, n = c.size();
+	if (c.find('\0') != std::string::npos)	/* the finder stops at a NUL: judged differentially only if digits are around */
+		return std::none_of(c.begin(), c.end(), isdig);
 	while (i < n) {
-		if (c[i] == '\0')	/* the finder stops at a NUL: judged differentially only if digits are around */
-			return std::none_of(c.begin(), c.end(), isdig);
 		if (!isdig(c[i])) {
-			if (c[i] == '-' || c[i] == ':' || c[i] == '+' || c[i] == '.')
+			/* a lone - directly in front of a digit would be read as a sign or a separator */
+			if ((c[i] == '-' || c[i] == ':' || c[i] == '+' || c[i] == '.') && i + 1 < n && isdig(c[i + 1]))
 				return false;
 			i++;
 			continue;
 		}
-		if (i > 0 && !sepch(c[i - 1]))
+		if (i > 0 && !prech(c[i - 1]))
 			return false;
 		/* need YYYY-MM-DD */
 		if (i + 10 > n)
@@ -101,7 +116,7 @@ bool scan_tokens(const std::string &c, std::vector<Tok> &toks)
 		t.len = 10;
 		if (t.y < 1700 || t.y > 2400 || t.m < 1 || t.m > 12 || t.d < 1 || t.d > (int)model::mdays(t.y, t.m))
 			return false;
-		if (i + 10 < n && c[i + 10] == 'T') {
+		if (i + 10 < n && c[i + 10] == 'T' && i + 11 < n && isdig(c[i + 11])) {
 			if (i + 19 > n)
 				return false;
 			for (int k : {11, 12, 14, 15, 17, 18})
@@ -116,8 +131,13 @@ bool scan_tokens(const std::string &c, std::vector<Tok> &toks)
 			if (t.H > 23 || t.M > 59 || t.S > 59)
 				return false;
 			t.len = 19;
+			/* a UTC designator belongs to the value */
+			if (c.compare(i + 19, 6, "+00:00") == 0)
+				t.len = 25;
+			else if (i + 19 < n && c[i + 19] == 'Z')
+				t.len = 20;
 		}
-		if (i + t.len < n && !sepch(c[i + t.len]))
+		if (!postch(c, i + t.len))
 			return false;
 		toks.push_back(t);
 		i += t.len;
@@ -126,9 +146,10 @@ bool scan_tokens(const std::string &c, std::vector<Tok> &toks)
 }
 
 /* model of the replacement text, "" = unknown */
-std::string model_token(const std::string &kind, const Tok &t)
+std::string model_token(const std::string &kind0, const Tok &t)
 {
 	char b[64];
+	std::string kind = kind0.size() > 2 && kind0.compare(kind0.size() - 2, 2, "-E") == 0 ? kind0.substr(0, kind0.size() - 2) : kind0;
 	if (kind == "dconv-dmy") {
 		snprintf(b, sizeof(b), "%02d.%02d.%04d", t.d, t.m, t.y);
 		return b;
@@ -178,8 +199,9 @@ const ToolCfg tool_cfgs[] = {
 	{{"dadd", "-S", "+1d"}, "dadd+1d"},
 	{{"dadd", "-S", "-1d"}, "dadd-1d"},
 	{{"dround", "-S", "Mon"}, "dround-Mon"},
-	{{"dconv", "-S", "-e", "-f", "%d.%m.%Y"}, "none"},
-	{{"dround", "-S", "-e", "Mon"}, "none"},
+	{{"dconv", "-S", "-E", "-f", "%d.%m.%Y"}, "dconv-dmy-E"},
+	{{"dround", "-S", "-E", "Mon"}, "dround-Mon-E"},
+	{{"dadd", "-S", "-E", "+1d"}, "dadd+1d-E"},
 	{{"dconv", "-S", "-i", "%d/%m/%Y", "-f", "%F"}, "none"},
 	{{"dadd", "-S", "+1mo"}, "none"},
 };
@@ -223,10 +245,29 @@ std::string near_miss(Rng &r)
 
 std::string gen_line(Rng &r, size_t target_len, int flavour)
 {
-	/* flavour: 0 literal only, 1 tokens+literals (oracle 3 applies), 2 near misses, 3 empty */
+	/* flavour: 0 literal only, 1 tokens+literals (oracle 3 applies), 2 near misses, 3 empty,
+	 * 4 tokens hugged by punctuation that cannot continue a date/time (oracle 3 applies) */
 	std::string s;
 	if (flavour == 3)
 		return s;
+	if (flavour == 4) {
+		static const char *pre[] = {"", " ", "x", "(", "=", "[", "\"", "log "};
+		static const char *post[] = {".", ".x", ". x", ":", ":x", ": x", "+", "+x", "T", "Tx", "x", ",", ")", ";", "]", "\"", "!", "", " x"};
+		int nt = (int)r.range(1, 3);
+		for (int i = 0; i < nt; i++) {
+			if (i)
+				s += " ";
+			s += pre[r.below(sizeof(pre) / sizeof(*pre))];
+			std::string tok = rand_token(r);
+			if (tok.size() == 19 && r.chance(1, 3))
+				tok += r.chance(2, 3) ? "+00:00" : "Z";
+			s += tok;
+			s += post[r.below(sizeof(post) / sizeof(*post))];
+		}
+		if (r.chance(1, 2))
+			s += " " + safe_lit(r, (size_t)r.below(6), false);
+		return s;
+	}
 	if (flavour == 0) {
 		s = safe_lit(r, target_len, r.chance(1, 6));
 		return s;
@@ -260,7 +301,7 @@ struct StreamEngine : Engine {
 	{
 		Plan p;
 		(void)idx;
-		const ToolCfg &tc = tool_cfgs[r.chance(4, 5) ? r.below(5) : r.below(sizeof(tool_cfgs) / sizeof(*tool_cfgs))];
+		const ToolCfg &tc = tool_cfgs[r.chance(3, 4) ? r.below(5) : r.below(sizeof(tool_cfgs) / sizeof(*tool_cfgs))];
 		p.argv = tc.argv;
 		p.par["model"] = tc.model;
 		p.has_input = true;
@@ -317,7 +358,7 @@ struct StreamEngine : Engine {
 		for (size_t i = 0; i < npool; i++) {
 			int fl = (int)r.below(10);
 			size_t len = maxlen ? (size_t)r.range(maxlen > 4 ? maxlen - 4 : 0, maxlen) : 0;
-			pool.push_back(gen_line(r, len, fl < 5 ? 0 : fl < 8 ? 1 : fl < 9 ? 2 : 3));
+			pool.push_back(gen_line(r, len, fl < 4 ? 0 : fl < 7 ? 1 : fl < 8 ? 4 : fl < 9 ? 2 : 3));
 		}
 		/* terminator style for this stream */
 		unsigned ts = (unsigned)r.below(10);	/* 0-5 LF, 6-7 CRLF, 8-9 mixed */
@@ -329,7 +370,7 @@ struct StreamEngine : Engine {
 			else {
 				unsigned fl = (unsigned)r.below(20);
 				size_t len = r.chance(1, 4) ? maxlen : (size_t)r.below(maxlen + 1);
-				c = gen_line(r, len, fl < 8 ? 0 : fl < 15 ? 1 : fl < 18 ? 2 : 3);
+				c = gen_line(r, len, fl < 7 ? 0 : fl < 13 ? 1 : fl < 16 ? 4 : fl < 19 ? 2 : 3);
 			}
 			in += c;
 			bool crlf = ts >= 8 ? r.chance(1, 2) : ts >= 6;
@@ -609,6 +650,9 @@ struct StreamEngine : Engine {
 					a = tk.pos + tk.len;
 				}
 				exp += c.substr(a);
+				/* empty mode: a line without any date/time comes out empty */
+				if (toks.empty() && mk.size() > 2 && mk.compare(mk.size() - 2, 2, "-E") == 0)
+					exp.clear();
 				if (collect)
 					st.named[toks.empty() ? "oracle3_literal_lines" : "oracle3_token_lines"]++;
 				if (exp != t[i]) {
@@ -617,7 +661,7 @@ struct StreamEngine : Engine {
 					v.detail = "line " + cquote(c, 80) + " came out as " + cquote(t[i], 80) + ", expected " + cquote(exp, 80);
 					return v;
 				}
-			} else if (std::none_of(c.begin(), c.end(), isdig) && p.argv.size() > 2 && p.argv[2] != "-e") {
+			} else if (std::none_of(c.begin(), c.end(), isdig) && std::find(p.argv.begin(), p.argv.end(), "-E") == p.argv.end()) {
 				if (collect)
 					st.named["oracle3_literal_lines"]++;
 				if (t[i] != c) {
